@@ -63,12 +63,12 @@ def plan(tier, rnd):
                 items.append(dict(tid=tid, bl=bl, n=8 if heavy else 14, exhaustive=False))
         else:
             for bl in ([1, 2, 3] if heavy else [1, 2, 3]):
-                items.append(dict(tid=tid, bl=bl, n=400 if not heavy else 250, exhaustive=True))
-            for bl in ([4, 5] if heavy else [4, 5, 6]):
-                items.append(dict(tid=tid, bl=bl, n=25 if not heavy else (12 if bl == 4 else 5), exhaustive=False))
+                items.append(dict(tid=tid, bl=bl, n=2500 if not heavy else 1200, exhaustive=True))
+            for bl in ([4, 5, 6] if heavy else [4, 5, 6, 7]):
+                items.append(dict(tid=tid, bl=bl, n=150 if not heavy else {4: 60, 5: 20, 6: 4}[bl], exhaustive=False))
     for kind in ("array_read", "array_write", "array_2d", "compose", "select_lazy", "reuse_after_guard"):
         for bl in (2, 3, 4):
-            items.append(dict(tid=kind, bl=bl, n=(25 if tier == "quick" else 150), exhaustive=False))
+            items.append(dict(tid=kind, bl=bl, n=(25 if tier == "quick" else 500), exhaustive=False))
     rnd.shuffle(items)
     return items
 
